@@ -149,7 +149,8 @@ PROPS = {
     "C03": dict(module="TB.Props.C03", theorems=["C03_confined", "C03_readonly", "C03_plain"], clauses=["c03-"], worlds=lambda t, s: worlds_default(t, s, "c03", 300, 6000, tweak_threads),
                 unit_stream=lambda t, s: unit.load_stream("quick", s)[: 3000 if t == "quick" else 8000]),
     "C04": dict(module="TB.Props.C04", theorems=["C04_export_first", "C04_skip", "C04b_untouched"], clauses=["c04-"], worlds=lambda t, s: worlds_default(t, s, "c04", 300, 6000, tweak_threads)),
-    "C12": dict(module="TB.Props.C12", theorems=["C12_path", "C12_only_run", "C12_len", "C12_disjoint"], clauses=["c12-"], worlds=lambda t, s: worlds_default(t, s, "c12", 300, 6000, tweak_threads)),
+    "C12": dict(module="TB.Props.C12", theorems=["C12_path", "C12_only_run", "C12_len", "C12_disjoint"], clauses=["c12-"],
+                worlds=lambda t, s: [W.gen_world_dup_path(Rng(s, "c12-dup", 0))] + worlds_default(t, s, "c12", 300, 6000, tweak_threads)),
     "C14": dict(module="TB.Props.C14", theorems=["C14_abort", "C14_pass2_ops", "C14_noflag"], clauses=["c14-"],
                 worlds=lambda t, s: [W.gen_world_c14(Rng(s, "c14", i)) for i in range(400 if t == "quick" else 8000)]),
     "C15": dict(module="TB.Props.C15", theorems=["C15_sum", "C15_run", "C15_dedup"], clauses=["c15-"], worlds=lambda t, s: worlds_default(t, s, "c15", 300, 6000, tweak_threads)),
@@ -161,7 +162,9 @@ PROPS = {
 }
 
 def nontrivial(c):
-    # a run that evaluated at least one piece, or was refused for a reason
+    # a run that evaluated at least one piece, or was refused for a reason; exec stream: at least one scheduling decision
+    if c.line.startswith("exec "):
+        return " EV 0 " not in c.line
     return " OPS 0 " not in c.obs
 
 def world_summary(r):
@@ -253,3 +256,85 @@ def run(pid, tier, seed, replay=None, props=None):
                        "scan and export directories are lexically canonical absolute paths; no symbolic links; no other process mutates the tree during a run",
                        "ground truth of generated torrents is self-certified per piece by the hash (TB.Check.Run.truthCertified)"]
     return E.finish(res)
+
+# ---------------------------------------------------------------- C05: executor under the deterministic scheduler
+
+def gen_exec_world(rng, i):
+    """worlds with many small pieces; thread counts around the number of pieces"""
+    w = W.gen_world(rng, ntorrents=rng.choice([1, 1, 2]))
+    w.threads = rng.choice([0, 1, 2, 2, 3, 3, 4, 5, 8, 16])
+    w.sched = rng.next() % (2**32)
+    w.tag = "threads=%d" % w.threads
+    return w
+
+def exec_line(r):
+    """request/observation of the `exec` stream from the scheduler log of one run"""
+    items = {}
+    def item(key):
+        if key not in items:
+            items[key] = len(items) + 1
+        return items[key]
+    init, bals, evs, solves = None, [], [], []
+    for line in r.stdout.split("\n"):
+        if not line.startswith("LOG "):
+            continue
+        t = line.split()[1:]
+        if t[0] == "balance":
+            nq = int(t[2]); k = 3; qs = []
+            for _ in range(nq):
+                ln = int(t[k]); k += 1; q = []
+                for _ in range(ln):
+                    q.append(item((int(t[k]), int(t[k + 1]), int(t[k + 2])))); k += 3
+                qs.append(q)
+            if init is None:
+                init = qs
+            else:
+                bals.append(qs)
+        elif t[0] == "sch":
+            if t[1] == "DEADLOCK":
+                evs.append(("0", "DEADLOCK", "-", "-", []))
+            else:
+                en = [int(x) for x in t[6].split(",")] if len(t) > 6 and t[6] else []
+                evs.append((t[1], t[2], t[3], t[4], en))
+        elif t[0] == "solve" and t[2] == "begin":
+            n = int(t[4])
+            solves.append(item((int(t[5]), int(t[6]), n)))
+    if init is None:
+        return None
+    def qtok(qs):
+        out = [str(len(qs))]
+        for q in qs:
+            out += [str(len(q))] + [str(x) for x in q]
+        return out
+    req = ["exec", "INIT"] + qtok(init) + ["EV", str(len(evs))]
+    for th, kind, lock, outcome, en in evs:
+        req += [th, kind, lock, outcome, str(len(en))] + [str(x) for x in en]
+    req += ["BAL", str(len(bals))]
+    for b in bals:
+        req += qtok(b)
+    req += ["SOLVE", str(len(solves))] + [str(x) for x in solves]
+    return " ".join(req) + " | RES " + r.result, len(init), len(evs), len(solves)
+
+def run_exec_cases(worlds):
+    with cf.ThreadPoolExecutor(max_workers=C.NCPU) as ex:
+        results = list(ex.map(W.execute, worlds))
+    lines, kept = [], []
+    for r in results:
+        el = exec_line(r)
+        if el is None:
+            continue
+        lines.append(el[0]); kept.append((r, el))
+    answers = C.run_model(lines)
+    cases = []
+    for (r, el), line, a in zip(kept, lines, answers):
+        req, _, obs = line.partition(" | ")
+        c = C.Case(req, obs, a, tag=r.world.tag)
+        c.result = r
+        r.exec_stats = el[1:]
+        cases.append(c)
+    return cases
+
+PROPS["C05"] = dict(module="TB.Props.C05", theorems=["C05_once", "C05_deadlock_free", "C05_final", "C05_measure_decreases", "C05_terminates"],
+                    clauses=["c05-", "c16-"],
+                    worlds=lambda t, s: [gen_exec_world(Rng(s, "c05", i), i) for i in range(300 if t == "quick" else 6000)],
+                    runner=run_exec_cases)
